@@ -102,11 +102,14 @@ def run(ctx):
         skip_until = "%s %s" % (cid, enc)
     if not parts:
         ctx.coverage.update({"evaluations": 0})
-        if not ctx.violations and not ctx.known_hits:
-            ctx.violation("impl-run-failed", "harness produced no summary: " + log[-600:], {"log": log[-3000:]}, found_input=False)
+        ctx.violation("impl-run-failed", "harness produced no summary: " + log[-600:], {"log": log[-3000:]}, found_input=False)
         return
     summ = c12.merge_summaries(parts)
     summ["hist"]["harness-children-killed-and-resumed"] = deaths
+    finished = bool(outs) and os.path.exists(outs[-1] + ".summary")
+    if not ctx.replay and deaths > 12:
+        ctx.violation("c13-harness-died-repeatedly", "the harness child died %d times; the run was cut short after input %s" % (deaths, skip_until),
+                      {"log": log[-3000:]}, found_input=False)
     for sig, replay, desc in summ["fails"]:
         ctx.violation(sig, "C13 fails on the implementation: " + desc[:700],
                       {"input": replay, "format": "<encoding> <hex bytes>", "how": "./check C13 --replay <this file>", "detail": desc})
@@ -125,6 +128,20 @@ def run(ctx):
     if checks <= 0 and not ctx.replay:
         ctx.violation("c13-no-model-checks", "the model side of the check did not run (driver rc=%s): %s" % (rc2, mlog[-600:]),
                       {"driver_output": mlog[-3000:]}, found_input=False)
+    want = c12.count_records(allcases)
+    if not ctx.replay:
+        prob = c12.driver_count_problem(mlog, want)
+        ends_expected = 1 if finished else 0
+        if prob or want["END"] != ends_expected:
+            ctx.violation("c13-driver-count", "model side incomplete: %s (END markers: %d, expected %d)" % (prob or "counts agree", want["END"], ends_expected),
+                          {"driver_output": mlog[-2000:]}, found_input=False)
+        # every leg has a floor (half of an undisturbed run): inputs evaluated, inputs the model compared
+        floor_ev = ncases // 2 if quick else ncases * 4 // 10
+        if summ.get("evaluations", 0) < floor_ev or want["L"] < floor_ev * 8 // 10 or checks < floor_ev * 7 // 10:
+            ctx.violation("c13-too-few-evaluations", "the run covered too little: %d inputs evaluated (floor %d), %d load records (floor %d), %d compared by the model (floor %d); "
+                          "harness finished: %s, children killed: %d" % (summ.get("evaluations", 0), floor_ev, want["L"], floor_ev * 8 // 10, checks, floor_ev * 7 // 10, finished, deaths),
+                          {}, found_input=False)
+        ctx.min_evaluations = floor_ev
     known_sigs = {k["signature"] for k in ctx.known_open}
     new_fails = [f for f in summ["fails"] if f[0] not in known_sigs]
     if (mism != 0 or wff != 0) and not new_fails:
@@ -142,7 +159,7 @@ def run(ctx):
         "mutated_trees_and_byte_cases": summ.get("cases", 0),
         "distinct_nontrivial": summ.get("nontrivial", 0),
         "rule": "evaluation = one guarded LoadNetwork call on one input (encoding, bytes). Inputs: valid saves of generated "
-                "networks mutated at the protobuf-tree level by 1-3 of 26 mutation kinds (incl. huge size / count fields alone and jointly, loaded in memory-limited one-shot children) and written in wire, JSON and text; "
+                "networks mutated at the protobuf-tree level by 1-3 of 27 mutation kinds (incl. huge size / count fields alone and jointly, loaded in memory-limited one-shot children) and written in wire, JSON and text; "
                 "byte/character-level mutants of valid saves per encoding; random byte strings; the empty input. "
                 "non-trivial = distinct input that the decoder accepts (it reaches the loader proper and is also run through "
                 "the Coq loader model)",
